@@ -11,7 +11,11 @@
      near future       -> the call returns its timeout result with clock >= deadline
                           (cv waits may also return 0: spurious wake-ups are permitted);
      far / no deadline -> still blocked when the helper acts, then returns the event result.
-   A crash (SIGSEGV from an ASSERT, sanitizer report) is attributed to the round = case.  */
+   A crash (SIGSEGV from an ASSERT, sanitizer report) is attributed to the round = case.
+
+   --param intr=1: the caller's first two futex waits return EINTR (what the kernel does when a signal with a handler is
+   delivered to the sleeping thread, even with SA_RESTART for absolute timeouts): an interrupted wait must not be taken for
+   an expired deadline ("a future deadline does not time out early").  */
 #include "sc.h"
 #include <limits.h>
 
@@ -35,7 +39,7 @@ static struct {
 	int64_t now_at_call_ns;
 } S;
 
-enum { CV_CASES = 0, CV_EXPIRED, CV_NEAR, CV_NEVER, CV_SPURIOUS, CV_SLEPT };
+enum { CV_CASES = 0, CV_EXPIRED, CV_NEAR, CV_NEVER, CV_SPURIOUS, CV_SLEPT, CV_INTR };
 
 static int cond_set (const void *v) { return (*(const int *) v != 0); }
 static void my_lock (void *m) { nsync_mu_lock ((nsync_mu *) m); }
@@ -200,6 +204,7 @@ static int setup (uint64_t seed) {
 	S.ctr = nsync_counter_new (1); S.ctr2 = nsync_counter_new (1);
 	S.cond = 0; S.returned = 0; S.event_done = 0; S.result = -1;
 	make_deadline ();
+	if (rt_param ("intr", 0)) { static const int plan[2] = { EINTR, EINTR }; rt_fault_plan (0, plan, 2); rt_cover (CV_INTR); }
 	rt_cover (CV_CASES);
 	rt_ev ((uint32_t) c);
 	rt_mark_nontrivial ();
@@ -213,7 +218,7 @@ static void describe (FILE *f) {
 }
 static void pinit (void) {
 	rt_cover_name (CV_CASES, "cases"); rt_cover_name (CV_EXPIRED, "expired_deadline_cases"); rt_cover_name (CV_NEAR, "near_future_cases"); rt_cover_name (CV_NEVER, "blocking_cases");
-	rt_cover_name (CV_SPURIOUS, "cv_returns_without_timeout_or_signal"); rt_cover_name (CV_SLEPT, "calls_that_slept");
+	rt_cover_name (CV_SPURIOUS, "cv_returns_without_timeout_or_signal"); rt_cover_name (CV_SLEPT, "calls_that_slept"); rt_cover_name (CV_INTR, "cases_run_with_interrupted_futex_waits");
 }
 static void summary (FILE *f) { fprintf (f, "\"x_operations\":%d,\"x_deadline_kinds\":%d", N_OPS, N_DLS); }
 rt_scenario rt_scen = { "deadlines", "C15", 2, &pinit, &setup, &body, &check, &teardown, &describe, &summary, &describe, NULL };
